@@ -385,6 +385,53 @@ def q34(ctx, R):
                 ctx.violation("Q4", ep, "tail-partly-matched", "the error pattern %r cannot match the RFC 5804 tail %r in full: the unmatched rest "
                               "(response code / text / literal) is ignored" % (pr[1], d[0]), node=n,
                               witness="`NO %s`: errcode/errmsg wrong, and if the text is a literal its octets are read as the next reply" % d[0].decode("latin-1"))
+    # ---- Q8: the text of ANY status reply may be a literal (RFC 5804: string = quoted / literal); its octets belong to this reply
+    ctx.rule("Q8", "a literal sent as the text of a status reply is consumed before the reply is handed up (OK as well as NO)")
+    cfgl = ctx.cfg(lin)
+    resp_raises = [r for r in walk_no_nested(lin.node) if isinstance(r, ast.Raise) and raise_name(r) == "Response"]
+    status_calls = [c for c in walk_no_nested(lin.node) if isinstance(c, ast.Call) and isinstance(c.func, ast.Attribute) and c.func.attr == "match"
+                    and R.pattern_of(c.func.value, lin) and proto_kind(R.pattern_of(c.func.value, lin)[1]) == "status"]
+    st_nodes = [x for c in status_calls for x in cfgl.node_containing(c)]
+    # decision points "is the tail a literal?": size-pattern matches evaluated after the status line was recognised
+    size_tests = []
+    for c in walk_no_nested(lin.node):
+        if isinstance(c, ast.Call) and isinstance(c.func, ast.Attribute) and c.func.attr in ("match", "search") and R.pattern_of(c.func.value, lin) \
+                and proto_kind(R.pattern_of(c.func.value, lin)[1]) == "size":
+            for x in cfgl.node_containing(c):
+                if st_nodes and cfgl.dominates(st_nodes, x, exc=False):
+                    size_tests.append(x)
+    ep_nodes = [x for c in (self_calls(lin, ep.name) if not inline_ep else []) for x in cfgl.node_containing(c)]
+    blk_calls = [x for c in self_calls(lin, R.block_reader.name) for x in cfgl.node_containing(c)]
+
+    def no_text(fc):
+        # "<some regex group> is None": there is no text, hence no literal
+        e, pol = fact_atom(fc)
+        cp = cmp_parts(e)
+        if cp and isinstance(cp[2], ast.Constant) and cp[2].value is None:
+            src = cp[0]
+            if isinstance(src, ast.Name):
+                ds = [a.value for a in walk_no_nested(lin.node) if isinstance(a, ast.Assign) and any(
+                    isinstance(t, ast.Name) and t.id == src.id for t in a.targets)]
+                src = ds[0] if len(ds) == 1 else src
+            if ".group(" in norm(src):
+                return (cp[1] == "Is" and pol is True) or (cp[1] == "IsNot" and pol is False)
+        return False
+    def is_no(fc):
+        # the reply is NO on this edge: rule Q2 demands the error parser there, which reads the literal
+        r_ = eq_const_fact(fc, lambda c: c in (b"NO", "NO"))
+        return bool(r_ and r_[2] is True)
+    size_tests = size_tests + list(cfgl.facts(no_text)) + list(cfgl.facts(is_no))
+    for r in resp_raises:
+        for n_ in cfgl.nodes_for(r):
+            # every path from the status match to the raise passes the error parser or a "tail is a literal?" decision
+            covered = (ep_nodes or size_tests) and all(
+                n_ not in cfgl.reach([m_ for s_ in st_nodes for m_, _ in s_.succ], avoid=ep_nodes + size_tests, exc=False) for _ in [0])
+            if covered and (not size_tests or blk_calls or inline_ep or ep_nodes):
+                ctx.holds("Q8", "%s: every status reply passes the literal test (or the error parser) before Response" % lin.qualname)
+            else:
+                ctx.violation("Q8", lin, "status-literal-unread", "a status reply other than NO reaches Response without its text having been "
+                              "tested for a literal: `OK (WARNINGS) {n}` leaves n octets in the buffer", node=r,
+                              witness="putscript answered `OK (WARNINGS) {13}` + 13 octets: the next listscripts() reports a script named like the warning")
     # the response-code group ends at the first ")": otherwise a ")" in the human-readable text is swallowed into errcode
     ctx.rule("Q6", "the response-code group of the error pattern cannot extend past the first `)`")
     for n in walk_no_nested(ep.node):
